@@ -79,18 +79,22 @@ class HostPool(object):
 
         yield from self._condition.acquire()
 
-        while True:
-            if self.ready:
-                connection = self.ready.pop()
-                break
-            elif len(self.busy) < self.max_connections:
-                connection = self._connection_factory()
-                break
-            else:
-                yield from self._condition.wait()
+        try:
+            while True:
+                if self.ready:
+                    connection = self.ready.pop()
+                    break
+                elif len(self.busy) < self.max_connections:
+                    connection = self._connection_factory()
+                    break
+                else:
+                    # If the waiter is cancelled, wait() re-acquires the
+                    # lock before raising
+                    yield from self._condition.wait()
 
-        self.busy.add(connection)
-        self._condition.release()
+            self.busy.add(connection)
+        finally:
+            self._condition.release()
 
         return connection
 
@@ -105,13 +109,16 @@ class HostPool(object):
         Coroutine.
         '''
         yield from self._condition.acquire()
-        self.busy.remove(connection)
 
-        if reuse:
-            self.ready.add(connection)
+        try:
+            self.busy.remove(connection)
 
-        self._condition.notify()
-        self._condition.release()
+            if reuse:
+                self.ready.add(connection)
+
+            self._condition.notify()
+        finally:
+            self._condition.release()
 
 
 class ConnectionPool(object):
@@ -197,16 +204,18 @@ class ConnectionPool(object):
 
         _logger.debug('Check out %s', key)
 
-        connection = yield from host_pool.acquire()
-        connection.key = key
+        try:
+            connection = yield from host_pool.acquire()
+            connection.key = key
 
-        # TODO: Verify this assert is always true
-        # assert host_pool.count() <= host_pool.max_connections
-        # assert key in self._host_pools
-        # assert self._host_pools[key] == host_pool
-
-        with (yield from self._host_pools_lock):
-            self._host_pool_waiters[key] -= 1
+            # TODO: Verify this assert is always true
+            # assert host_pool.count() <= host_pool.max_connections
+            # assert key in self._host_pools
+            # assert self._host_pools[key] == host_pool
+        finally:
+            # Also when the waiting client is cancelled
+            with (yield from self._host_pools_lock):
+                self._host_pool_waiters[key] -= 1
 
         return connection
 
